@@ -1,6 +1,11 @@
 package gonum
 
-import "gonum.org/v1/gonum/blas"
+import (
+	"math"
+	"runtime"
+
+	"gonum.org/v1/gonum/blas"
+)
 
 // C09: the premise on which schedule independence of the parallel Dgemm rests.
 // Every goroutine spawned by dgemmParallel is a task; the serial kernel is
@@ -45,6 +50,7 @@ func VerifC09_DgemmBlockOwnership() {
 		// native replay of a solver counterexample: an ownership defect must
 		// show as a wrong product on integer-valued data (exact in float64)
 		verifC09Native(tAof(aT), tAof(bT), m, n, k, ld)
+		verifC09NativeProcs(tAof(aT), tAof(bT), m, n, k, ld, verifInt("env.GOMAXPROCS#1", 1, 64), verifInt("env.GOMAXPROCS#2", 1, 64))
 		return
 	}
 	a := make([]float64, ld*ld)
@@ -60,6 +66,26 @@ func VerifC09_DgemmBlockOwnership() {
 		tB = blas.Trans
 	}
 	Implementation{}.Dgemm(tA, tB, m, n, k, 1, a, ld, b, ld, 1, c, ld)
+
+	// the same call under a second, independent GOMAXPROCS value must hand the
+	// kernel exactly the same sequence of windows (same accumulation order per
+	// cell => bit-identical results for every GOMAXPROCS)
+	log1 := append([]verifC09Entry(nil), verifC09Log...)
+	verifC09Log = verifC09Log[:0]
+	Implementation{}.Dgemm(tA, tB, m, n, k, 1, a, ld, b, ld, 1, c, ld)
+	{
+		// for a symbolic cell and a symbolic position t in [0,k): the k-block
+		// that accumulates position t into that cell must be the same block
+		// under both GOMAXPROCS values
+		r := verifInt("rel.r", 0, maxD-1)
+		cc := verifInt("rel.c", 0, maxD-1)
+		t := verifInt("rel.t", 0, maxD-1)
+		verifAssume(verifAnd(verifAnd(r < m, cc < n), t < k))
+		s1, n1 := verifC09BlockOf(log1, aT, ld, r, cc, t)
+		s2, n2 := verifC09BlockOf(verifC09Log, aT, ld, r, cc, t)
+		verifAssert(verifAnd(n1 == 1, n2 == 1), "each (cell, k position) is accumulated by exactly one kernel call")
+		verifAssert(s1 == s2, "the k-block partition seen by a cell does not depend on GOMAXPROCS")
+	}
 
 	log := verifC09Log
 	verifAssert(len(log) > 0, "Dgemm with positive dimensions reaches the serial kernel")
@@ -157,4 +183,49 @@ func verifC09Native(tA, tB blas.Transpose, m, n, k, ld int) {
 		}
 	}
 	verifAssert(bad == 0, "parallel Dgemm equals the serial triple loop on every cell (native replay)")
+}
+
+// verifC09NativeProcs: native replay of a GOMAXPROCS-dependence counterexample:
+// the real Dgemm must give bit-identical results under the two settings.
+func verifC09NativeProcs(tA, tB blas.Transpose, m, n, k, ld, g1, g2 int) {
+	run := func(g int) []float64 {
+		old := runtime.GOMAXPROCS(g)
+		defer runtime.GOMAXPROCS(old)
+		a := make([]float64, ld*ld)
+		b := make([]float64, ld*ld)
+		c := make([]float64, ld*ld)
+		for i := range a {
+			a[i] = math.Sqrt(float64(i%97 + 2))
+			b[i] = 1 / math.Sqrt(float64(i%89+3))
+		}
+		Implementation{}.Dgemm(tA, tB, m, n, k, 1, a, ld, b, ld, 1, c, ld)
+		return c
+	}
+	c1, c2 := run(g1), run(g2)
+	bad := 0
+	for i := range c1 {
+		if math.Float64bits(c1[i]) != math.Float64bits(c2[i]) {
+			bad++
+		}
+	}
+	verifAssert(bad == 0, "Dgemm is bit-identical under the two GOMAXPROCS settings (native replay)")
+}
+
+// verifC09BlockOf returns the start of the k-block that covers position t for
+// cell (r,c) in the given call log, and how many calls cover it.
+func verifC09BlockOf(log []verifC09Entry, aT bool, ld, r, c, t int) (start, count int) {
+	for _, e := range log {
+		i0 := e.coff / ld
+		j0 := e.coff % ld
+		var ks int
+		if aT {
+			ks = (e.aoff - i0) / ld
+		} else {
+			ks = e.aoff - i0*ld
+		}
+		in := verifAnd(verifAnd(verifAnd(r >= i0, r < i0+e.m), verifAnd(c >= j0, c < j0+e.n)), verifAnd(t >= ks, t < ks+e.k))
+		start += verifIteInt(in, ks, 0)
+		count += verifIteInt(in, 1, 0)
+	}
+	return start, count
 }
